@@ -69,6 +69,14 @@ def build(device, desc, loop=None) -> BuiltDb:
             descriptors = [gatt.Descriptor(d['uuid'], att.Attribute.Permissions(d['perms']), bytes(d['value'])) for d in c['descs']]
             if c['kind'] == 'static':
                 val = bytes(c['value'])
+            elif c['kind'] == 'raising_cb':
+                # an application whose value functions fail: the peer's request still has to be answered
+                def bad_read(conn):
+                    raise ValueError('application read function failed')
+
+                def bad_write(conn, v):
+                    raise ValueError('application write function failed')
+                val = gatt.CharacteristicValue(read=bad_read, write=bad_write)
             elif c['kind'] == 'sync_cb':
                 val = gatt.CharacteristicValue(read=lambda conn, cell=cell: cell['value'],
                                                write=lambda conn, v, cell=cell: cell.__setitem__('value', bytes(v)))
